@@ -43,9 +43,15 @@ func universe(rng *rand.Rand, n int) []hs {
 	out := make([]hs, 0, n)
 	sizes := []int{16, 24, 32}
 	for len(out) < n {
-		id := fmt.Sprintf("key-%d", rng.Intn(50))
+		// key ids of several shapes and lengths (the pre-hash folds every byte of the id)
+		id := []string{"key-%d", "%d", "user-%d", "k%d-access"}[rng.Intn(4)]
+		id = fmt.Sprintf(id, rng.Intn(50))
 		salt := make([]byte, sizes[rng.Intn(3)])
 		rng.Read(salt)
+		if len(out) > 0 && rng.Intn(3) == 0 {
+			// the same salt under another key is a different handshake
+			salt = append([]byte{}, out[len(out)-1].salt...)
+		}
 		h := fold(id, salt)
 		if seen[h] {
 			continue
